@@ -2,7 +2,7 @@
    and followed by Print Assumptions (audited by ./check on every run). *)
 From Coq Require Import String Ascii.
 From V.lib Require Import Base.
-From V.c19 Require Import C19Model C19Spec C19InvProofs C19TrackProofs C19DescProofs.
+From V.c19 Require Import C19Model C19Spec C19InvProofs C19TrackProofs C19DescProofs C19ElngProofs C19ScopeProofs.
 
 Definition avc_parser := str -> option (N * N * (N * N * N)).
 Definition hevc_parser := str -> option (N * N * list N).
@@ -178,7 +178,41 @@ Theorem C19_descriptor_stpp :
 Proof. exact set_stpp_ok. Qed.
 Print Assumptions C19_descriptor_stpp.
 
+(* round trip of the extended language box (the only variable-length box AddEmptyTrack writes from its
+   arguments): a tag of two or more non-NUL bytes decodes to the same tag as a full box ... *)
+Theorem C19_elng_roundtrip :
+  forall lang, no_nul lang = true -> (2 <= length lang)%nat -> elng_decode (elng_payload lang) = Ok (false, lang).
+Proof. exact elng_roundtrip. Qed.
+Print Assumptions C19_elng_roundtrip.
+
+(* ... and a one-byte tag does not (payload shorter than 7 bytes is taken for the old layout): the property's
+   "two or more characters" is the exact boundary *)
+Theorem C19_elng_short_refuted :
+  exists lang, no_nul lang = true /\ length lang = 1%nat /\ elng_decode (elng_payload lang) = Ok (true, []).
+Proof. exact elng_short_refuted. Qed.
+Print Assumptions C19_elng_short_refuted.
+
+(* Outside the quantifier (history starting from a DECODED init), reproduced on the real code by the harness:
+   AddEmptyTrack repeats an id when the decoded ids are not 1..n, and does not keep the traks together when the
+   first moov child is a trak (lastTrakIdx = 0 is read as "no trak"). *)
+Theorem C19_decoded_duplicate_id_refuted :
+  exists s s', s = mkSt [MCmvhd; MCtrak 0; MCmvex] [some_trak 2] [2] 3
+               /\ add_empty_track s 1000 (BS "audio") (BS "eng") = (OOk, s')
+               /\ map tk_id (traks s') = [2; 2] /\ trexs s' = [2; 2].
+Proof. exact add_after_decode_duplicate_id. Qed.
+Print Assumptions C19_decoded_duplicate_id_refuted.
+
+Theorem C19_decoded_not_contiguous_refuted :
+  exists s s', s = mkSt [MCtrak 0; MCmvhd; MCmvex] [some_trak 1] [1] 2
+               /\ add_empty_track s 1000 (BS "audio") (BS "eng") = (OOk, s')
+               /\ children s' = [MCtrak 0; MCmvhd; MCmvex; MCtrak 1].
+Proof. exact add_after_decode_not_contiguous. Qed.
+Print Assumptions C19_decoded_not_contiguous_refuted.
+
 (* ------------------------------------------------------------------ the hypotheses are satisfiable *)
+Example C19_elng_hyp : no_nul (BS "zh-Hant") = true /\ (2 <= length (BS "en"))%nat.
+Proof. split; vm_compute; [reflexivity|lia]. Qed.
+
 Definition ex_avc_parse : avc_parser := fun sps => match sps with 103 :: _ => Some (1280, 720, (100, 0, 32)) | _ => None end.
 Definition ex_hevc_parse : hevc_parser := fun sps => match sps with 66 :: _ => Some (960, 540, [0; 0; 2; 536870912; 0; 123; 1; 2; 2]) | _ => None end.
 Definition ex_ops : list op :=
